@@ -27,7 +27,7 @@ def main():
     results = []
     for d in sorted(glob.glob(os.path.join(VERIF, "seeded", "*"))):
         name = os.path.basename(d)
-        if want and not any(name.startswith(w) for w in want):
+        if want and not any(name.startswith(w) or ("*" in w and w.strip("*") in name) for w in want):
             continue
         meta = json.load(open(os.path.join(d, "meta.json")))
         prop = meta["property"]
